@@ -28,7 +28,15 @@ REGIONS = {}
 
 def mk_discrete_offline(rng):
     g = F.Gen(rng, VARS, F.ALL_DISCRETE_OFFLINE - {"fn"}, max_bound=rng.choice([2, 4, 6, 8]))
-    f = g.formula(rng.choice([1, 2, 3]))
+    k = rng.random()
+    if k < 0.4:
+        f = g.formula(rng.choice([1, 2, 3]))
+    elif k < 0.75:
+        # operators applied directly to variables: the result lists of variable nodes are the caller's lists
+        f = g.untyped(rng.choice([1, 1, 2, 3]))
+    else:
+        # a node that pads / slices its operand next to another reader of the same variable
+        f = ("b", rng.choice(["and", "or", "add", "lt"]), g.untyped(1), g.untyped(rng.choice([1, 2])))
     n = rng.randint(1, 6)
     vs = F.variables(f) or ["a"]
     return {"kind": "offd", "f": f, "n": n, "data": F.gen_trace(rng, vs + (["zz"] if rng.random() < 0.2 else []), n), "vars": vs}
@@ -243,7 +251,7 @@ def replay(ctx, obj):
 
 
 def run(ctx):
-    explore(ctx, ctx.subrng("pure"), ctx.budget(250, 4000))
+    explore(ctx, ctx.subrng("pure"), ctx.budget(700, 8000))
     if not ctx.violations:
         v = hashseed_sweep(ctx)
         if v:
